@@ -4,9 +4,9 @@ tier=${1:-quick}
 mkdir -p "$(dirname "$0")/../work"
 cd "$(dirname "$0")/.."
 for p in $(python3 -c "
-import json; print(' '.join(c['property_id'] for c in json.load(open('MANIFEST.json'))['checks']))"); do
+import json; print(' '.join(c['property_id'] for c in json.load(open('MANIFEST.json'))['checks']))") BEYOND; do
   s=$(date +%s)
   ./vcheck $p $tier > work/runall-$p.log 2>&1; rc=$?
   e=$(( $(date +%s) - s ))
-  echo "$p rc=$rc ${e}s viol=$(grep -c '^VIOLATION' work/runall-$p.log) known=$(grep -c '^KNOWN-FINDING' work/runall-$p.log)"
+  echo "$p rc=$rc ${e}s viol=$(grep -c '^VIOLATION' work/runall-$p.log) known=$(grep -c '^KNOWN-FINDING' work/runall-$p.log) beyond=$(grep -c '^SPEC-MISMATCH' work/runall-$p.log)"
 done
